@@ -125,7 +125,7 @@ MembersOf(G) == Concrete([j \in Idx(G.mem) |-> blk[G.mem[j]]])
 NoTemps == [known |-> TRUE, tab |-> <<>>]
 SeqProduct(sets) == FoldLeft(LAMBDA acc, X : {Append(a, x) : a \in acc, x \in X}, {<<>>}, sets)
 MkBlock(s, i, ch) == [xs |-> s.xs[i], kind |-> s.fixed[i].kind, alt |-> s.fixed[i].alt, h |-> s.fixed[i].h, hm |-> s.fixed[i].hm,
-                      n |-> s.fixed[i].n, t |-> <<ch[2], s.fixed[i].t2>>, bu |-> ch[1], w |-> ch[3], ord |-> <<1, 2>>, lfp |-> FALSE, sym |-> 1]
+                      n |-> s.fixed[i].n, t |-> <<ch[2], s.fixed[i].t2>>, bu |-> ch[1], w |-> ch[3], ord |-> <<1, 2>>, lfp |-> FALSE, sym |-> 1, wd |-> 1]
 Init == /\ scn \in Scenarios
         /\ blk \in {[i \in 1..Len(ScnOf(scn).xs) |-> MkBlock(ScnOf(scn), i, c[i])] : c \in SeqProduct(ScnOf(scn).choices)}
         /\ env = [i \in 1..Len(ScnOf(scn).xs) |-> 0]
